@@ -175,8 +175,13 @@ def _impersonate_options(
             impersonated_option = ("SAckOK", "")
 
         elif option == TCPOption.EOL:
-            impersonated_option = ("EOL", None)
-            # FIXME: eol+n & opt+ not handled
+            # EOL is followed by exactly `eol_padding_length` padding bytes,
+            # non-zero ones if the signature asks for the 'opt+' quirk.
+            # p0f does not look at anything after EOL.
+            padding = ("NOP" if Quirk.OPT_EOL_NZ in signature.quirks else "EOL", None)
+            options.append(("EOL", None))
+            options.extend([padding] * signature.options.eol_padding_length)
+            break
 
         elif option == TCPOption.SACK:
             # SACK option is 10 to 34 bytes long, kind and length bytes included
